@@ -52,6 +52,9 @@ class World:
         self.s = lsl.Calc(lambda seed=None: jnp.float32(0.5), _needs_seed=True, _name="s")
         self.c = lsl.Calc(lambda b, s: b + s, self.b, self.s)
         self.obj = {1: self.a, 2: self.b, 3: self.c, 4: self.s}
+        # a group over a (value node) and c (the calculator at the root)
+        self.group = lsl.Group("g", first=self.a, root=self.c)
+        self.gmembers = [1, 3]
         self.gb = lsl.GraphBuilder()
         self.models = {}          # id -> (Model, {user id -> node in that model})
         self.n = 0
@@ -68,6 +71,10 @@ class World:
         order = {nd.name: i for i, nd in enumerate(model._sorted_nodes)}
         rec["topo_ok"] = all(order[i.name] < order[nd.name] for nd in model.nodes.values()
                              for i in nd.all_input_nodes())
+        # groups as the model reports them: name -> member keys and the names of the members
+        rec["groups"] = sorted([g, sorted(grp.nodes_and_vars), sorted(m.name for m in grp.nodes_and_vars.values())]
+                               for g, grp in model.groups().items())
+
         def outs(nd):
             # `outputs` refuses to answer for a node that does not know its model
             try:
@@ -85,7 +92,8 @@ class World:
         rec["full"] = json.dumps({n: [type(nd).__name__, sorted(i.name for i in nd.all_input_nodes()),
                                       None if outs(nd) is None else sorted(o.name for o in outs(nd)),
                                       None if nd.value is None else [float(x) for x in jnp.ravel(jnp.asarray(nd.value, jnp.float32))],
-                                      bool(nd.outdated)] for n, nd in sorted(model.nodes.items())}, sort_keys=True)
+                                      bool(nd.outdated), sorted(nd.groups)] for n, nd in sorted(model.nodes.items())}, sort_keys=True) \
+            + json.dumps(rec["groups"])
         return rec
 
     def user_names(self):
